@@ -712,7 +712,9 @@ class Exec(object):
                     if not self.branch_pruned(b != 0):
                         self.raise_("ZeroDivisionError", line)
                     if not self.entails(b > 0):
-                        raise EngineLimit("divisor not known to be positive at line %s" % line)
+                        # the SMT encoding of // and % is Python's only for a positive divisor: proved, not assumed
+                        self.oblige("%s#divisor-positive" % self.cur_func, b > 0, "divisor-positive", line)
+                        self.assume(b > 0)
                 return a // b if isinstance(op, ast.FloorDiv) else a % b
             if isinstance(op, ast.Div):
                 if conc:
